@@ -93,27 +93,45 @@ def strip(expr):
 class Pair:
     """Both models of one reaction, everything that does not depend on the coefficient draw."""
 
-    def __init__(self, base: str, flags=(False, True), need_intensity=True):
+    def __init__(self, base: str, flags=(False, True), history=(), need_intensity=True):
+        """history: naming-flag settings the SAME helicity builder goes through (formulate() after
+        each) before it is set to `flags` and formulated for the last time."""
         import mpmath
         import sympy as sp
 
         import ampform
 
         self.base, self.flags = base, tuple(flags)
+        self.history = [tuple(x) for x in history]
         mpmath.mp.dps = TOL_DIGITS + 10
-        rh, rc = reactions.load(base + "_hel"), reactions.load(base + "_can")
+        have = set(reactions.names())
+        rh = reactions.load(base + "_hel")
+        rc = reactions.load(base + "_can") if base + "_can" in have else None
         self.rh = rh
-        bh, bc = ampform.get_builder(rh), ampform.get_builder(rc)
-        bh.naming.insert_parent_helicities, bh.naming.insert_child_helicities = flags
-        self.mh, self.mc = bh.formulate(), bc.formulate()
+        bh = ampform.get_builder(rh)
+        self.steps = []   # (flags, hel chains, groups) of every model formulated on the way
+        for fl in [*self.history, self.flags]:
+            bh.naming.insert_parent_helicities, bh.naming.insert_child_helicities = fl
+            self.mh = bh.formulate()
+            hel = []
+            for t in rh.transitions:
+                name = "A_{" + bh.naming.generate_amplitude_name(t) + "}"
+                f, syms = strip(self.mh.components[name])
+                assert len(syms) == 1 and f.is_Rational and f != 0, (name, syms, f)
+                hel.append({"t": t, "name": name, "sym": syms[0], "f": Fraction(int(f.p), int(f.q)), "key": chain_key(t)})
+            groups = {}
+            for h in hel:
+                groups.setdefault(h["sym"], []).append(h)
+            self.steps.append((fl, hel, groups))
         self.bh = bh
-        # helicity chains
-        self.hel = []
-        for t in rh.transitions:
-            name = "A_{" + bh.naming.generate_amplitude_name(t) + "}"
-            f, syms = strip(self.mh.components[name])
-            assert len(syms) == 1 and f.is_Rational and f != 0, (name, syms, f)
-            self.hel.append({"t": t, "name": name, "sym": syms[0], "f": Fraction(int(f.p), int(f.q)), "key": chain_key(t)})
+        self.hel, self.groups = self.steps[-1][1], self.steps[-1][2]
+        self._int = None
+        self.need_intensity = need_intensity
+        self.can, self.can_syms, self.violating, self.same_chains = {}, [], set(), False
+        if rc is None:
+            return
+        bc = ampform.get_builder(rc)
+        self.mc = bc.formulate()
         constrained = {h["key"]: [i for i in h["t"].topology.nodes if h["t"].interactions[i].parity_prefactor is not None]
                        for h in self.hel}
         # canonical chains grouped by helicity assignment
@@ -131,18 +149,24 @@ class Pair:
                 if not ls_conserves_parity(t, i):
                     self.violating.add(syms[0])
         self.same_chains = {h["key"] for h in self.hel} == set(self.can)
-        self.groups = {}
-        for h in self.hel:
-            self.groups.setdefault(h["sym"], []).append(h)
         self.can_syms = sorted(self.can_syms, key=str)
-        self._int = None
-        self.need_intensity = need_intensity
 
     # ---- direct form (independent of the coefficient draw)
     def direct(self):
+        """all models formulated on the way (history steps and the final one)"""
         fails, n, skipped = [], 0, 0
         self.collapsed_mismatch = 0
-        for sym, hs in self.groups.items():
+        for k, (fl, hel, groups) in enumerate(self.steps):
+            a, b, c = self._direct_one(fl, groups, self.history[:k])
+            n += a
+            skipped += b
+            fails += c
+        return n, skipped, fails
+
+    def _direct_one(self, flags, groups, history):
+        fails, n, skipped = [], 0, 0
+        hist = f" (same builder formulated before with naming flags {[list(x) for x in history]})" if history else ""
+        for sym, hs in groups.items():
             for h1, h2 in itertools.combinations(hs, 2):
                 t1, t2 = h1["t"], h2["t"]
                 if t1.topology != t2.topology:
@@ -167,7 +191,7 @@ class Pair:
                     skipped += 1   # they share the symbol for another reason (helicities not in the name)
                     continue
                 n += 1
-                if h1["f"] != sign * h2["f"] and not self.flags[1]:
+                if h1["f"] != sign * h2["f"] and not flags[1]:
                     # insert_child_helicities=False: the user asked for names without helicities, all
                     # helicity combinations of a decay collapse onto one symbol (not a parity-partner
                     # coupling; Coq: C03_no_coupling_without_child_helicities).  Informational only.
@@ -175,10 +199,14 @@ class Pair:
                     continue
                 if h1["f"] != sign * h2["f"]:
                     fails.append({"signature": "direct:shared-coefficient sign",
-                                  "what": f"{self.base}: chains {h1['name']} and {h2['name']} share {sym} and differ by reversed daughter helicities; "
+                                  "what": f"{self.base}{hist}: chains {h1['name']} and {h2['name']} share {sym} and differ by reversed daughter helicities; "
                                           f"required relative sign {sign}, model has {h1['f']}/{h2['f']}",
-                                  "case": {"kind": "direct", "base": self.base, "flags": list(self.flags), "chains": [h1["name"], h2["name"]]}})
+                                  "case": {"kind": "direct", "base": self.base, "flags": list(flags), "history": [list(x) for x in history],
+                                           "chains": [h1["name"], h2["name"]]}})
         return n, skipped, fails
+
+    def _hist(self):
+        return f" (same builder formulated before with naming flags {[list(x) for x in self.history]})" if self.history else ""
 
     # ---- consistency for one draw
     def induced(self, a):
@@ -207,9 +235,9 @@ class Pair:
                 d = abs(vals[h["name"]] - vals[ref["name"]])
                 if d > scale * mpmath.mpf(10) ** (-TOL_DIGITS + 10):
                     fails.append({"signature": "consistency:shared coefficient needs two values",
-                                  "what": f"{self.base}: {sym} is shared by {ref['name']} (factor {ref['f']}) and {h['name']} (factor {h['f']}) but the canonical "
+                                  "what": f"{self.base}{self._hist()}: {sym} is shared by {ref['name']} (factor {ref['f']}) and {h['name']} (factor {h['f']}) but the canonical "
                                           f"expansion requires {mpmath.nstr(vals[ref['name']], 12)} and {mpmath.nstr(vals[h['name']], 12)}",
-                                  "case": {"kind": "consistency", "base": self.base, "flags": list(self.flags), "draw": draw,
+                                  "case": {"kind": "consistency", "base": self.base, "flags": list(self.flags), "history": [list(x) for x in self.history], "draw": draw,
                                            "chains": [ref["name"], h["name"]]}})
                     break
         return n, fails, vals
@@ -241,9 +269,9 @@ class Pair:
             ic = complex(fc(*[complex(a[s]) for s in pc], *pt))
             if abs(ih - ic) > 1e-9 * max(1.0, abs(ic)):
                 fails.append({"signature": "intensity:helicity != canonical",
-                              "what": f"{self.base}: helicity intensity {ih.real:.12g} != canonical intensity {ic.real:.12g} at angles "
+                              "what": f"{self.base}{self._hist()}: helicity intensity {ih.real:.12g} != canonical intensity {ic.real:.12g} at angles "
                                       f"{dict(zip(map(str, ang), pt))} with the induced coefficients",
-                              "case": {"kind": "intensity", "base": self.base, "flags": list(self.flags), "draw": draw, "angle_seed_index": k}})
+                              "case": {"kind": "intensity", "base": self.base, "flags": list(self.flags), "history": [list(x) for x in self.history], "draw": draw, "angle_seed_index": k}})
                 break
         return N_ANGLE_POINTS, fails
 
@@ -344,6 +372,48 @@ def run(seed: int, n: int):
             if len(samples) < 8 and d == 0 and fl == HEL_FLAGS[0]:
                 samples.append({"reaction": b, "flags": list(fl), "helicity_chains": len(pair.hel), "shared_symbols": sum(1 for g in pair.groups.values() if len(g) > 1),
                                 "canonical_coefficients": len(pair.can_syms), "prefactors": sorted({str(h["f"]) for h in pair.hel})})
+    # ---- HISTORIES: one builder walked through naming-flag settings, formulate() after every step,
+    # ending in the standard flags; the property is checked on every model formulated on the way.
+    # All helicity reactions of the corpus (also the ones without a canonical twin, e.g. the same
+    # resonance twice: chic0_omegaomega_hel) get the direct form; the twins also the induced-coefficient check.
+    hrng = random.Random(f"C03-hist-{seed}")
+    all_flags = [(False, True), (True, True), (False, False), (True, False)]
+    hel_bases = [nm[:-4] for nm in reactions.names() if nm.endswith("_hel")]
+    hel_bases.sort(key=lambda b: (b not in ("chic0_omegaomega", "jpsi_ksp1750"), b))
+    n_walks = 3 if thorough else 1
+    twins = set(bases)
+    for b in hel_bases:
+        for w in range(-1 if b not in twins else 0, n_walks):
+            if w == -1:
+                history = []                      # fresh builder (reactions without a canonical twin)
+            elif w == 0:
+                history = [(True, True)]          # 'no sharing first'
+            else:
+                history = [hrng.choice(all_flags) for _ in range(hrng.randint(1, 3))]
+            pair = Pair(b, HEL_FLAGS[0], history=history)
+            nd, skipped, f = pair.direct()
+            kinds["history_models"] = kinds.get("history_models", 0) + len(pair.steps)
+            kinds["history_direct_pairs"] = kinds.get("history_direct_pairs", 0) + nd
+            evaluations += nd
+            distinct += nd
+            failures += f
+            if not pair.same_chains:
+                continue
+            if not thorough and b not in cheap and b != "jpsi_ksp1750":
+                continue
+            for d in range(per if thorough else 1):
+                draw = [seed, 1000 + d]
+                a, rng = draw_coefficients(pair, draw)
+                nc, f, vals = pair.consistency(a, draw)
+                kinds["history_consistency_pairs"] = kinds.get("history_consistency_pairs", 0) + nc
+                evaluations += nc
+                distinct += 1
+                failures += f
+                if not f and d < 2 and (thorough or b in cheap):
+                    ni, f2 = pair.intensity(a, vals, rng, draw)
+                    kinds["intensity_points"] += ni
+                    evaluations += ni
+                    failures += f2
     distinct += kinds["direct_pairs"] + kinds["cgflip"]
     # one failure per signature+base is enough
     seen, uniq = set(), []
@@ -364,10 +434,10 @@ def replay(path: str):
         _, f = cg_reflection(max(abs(x) for x in case["args2"]))
         still = bool(f)
     else:
-        pair = Pair(case["base"], tuple(case["flags"]))
+        pair = Pair(case["base"], tuple(case["flags"]), history=case.get("history", []))
         if kind == "direct":
             _, _, f = pair.direct()
-            still = any(set(x["case"]["chains"]) == set(case["chains"]) for x in f)
+            still = any(set(x["case"]["chains"]) == set(case["chains"]) and x["case"]["flags"] == case["flags"] for x in f)
         else:
             a, rng = draw_coefficients(pair, case["draw"])
             _, f, vals = pair.consistency(a, case["draw"])
